@@ -328,7 +328,17 @@ func opAtomRound(_ *HState, a Event) Event {
 	if touched == nil {
 		touched = []interface{}{}
 	}
-	e := with(a, "nmsgs", len(msgs), "touched", touched)
+	// an implementation may copy the message on load (the caller's objects then never change): the filter's own final
+	// state is observed as well -- tweak index of the last reload and the bits set in it
+	fin := map[string]interface{}{"loaded": false, "t": 0, "bits": []int{}}
+	if m := f.MsgFilterLoad(); m != nil {
+		ft := 0
+		if m.Tweak == tweaks[1] && tweaks[0] != tweaks[1] {
+			ft = 1
+		}
+		fin = map[string]interface{}{"loaded": true, "t": ft, "bits": setBits(m.Filter)}
+	}
+	e := with(a, "nmsgs", len(msgs), "touched", touched, "fin", fin)
 	if pan {
 		e["panic"] = "Add panicked"
 	}
